@@ -2438,7 +2438,18 @@ def rule_format_conformance(eng, rep, rule="C07-21.format-strings-bind-their-arg
                 continue
             at = eng.prog.stmt_of(node)
             k = _tuple_kind(eng, fi, cfg, at, node.right) if cfg is not None and not fi.is_lambda else _tuple_kind(eng, fi, None, at, node.right)
-            if k == "tuple":
+            lens = set()
+            if k == "tuple" and isinstance(node.right, ast.Name) and cfg is not None:
+                # `args = (a, b); "%g %g" % args` is fine: every reaching definition is a tuple literal of the right length
+                try:
+                    for dn in cfg.defs_reaching(at, node.right.id):
+                        ds = cfg.ast_of(dn)
+                        lens.add(len(ds.value.elts) if isinstance(ds, ast.Assign) and isinstance(ds.value, ast.Tuple) and not any(isinstance(x, ast.Starred) for x in ds.value.elts) else None)
+                except Exception:
+                    lens = {None}
+            if k == "tuple" and lens and None not in lens and lens == {len(convs) + stars}:
+                rep.ok(rule, eng.where(fi, node), "%d conversions, argument tuple of %d built in a local" % (len(convs), len(convs)))
+            elif k == "tuple":
                 rep.bad(rule, eng.where(fi, node), "tuple-as-argument-list|" + key,
                         "the right operand of %r %% %s can be a tuple: it is taken as the argument list of the format (TypeError unless it has exactly %d element(s))"
                         % (fmt[:50], short(node.right, 40), len(convs) + stars))
@@ -2621,6 +2632,18 @@ def rule_instance_attributes_are_initialised(eng, rep, rule="C07-22.every-instan
                 for el in (t.elts if isinstance(t, (ast.Tuple, ast.List)) else [t]):
                     if isinstance(el, ast.Attribute) and isinstance(el.value, ast.Name) and el.value.id == sn:
                         stores.setdefault(el.attr, set()).add(k)
+        # a helper method called from the constructor (`self._reset_counters()`) assigns what its effect summary says it can write
+        from .common import field_write_summaries
+        summ = field_write_summaries(eng)
+        for ci in eng.calls_in(init):
+            if isinstance(ci.node.func, ast.Attribute) and isinstance(ci.node.func.value, ast.Name) and ci.node.func.value.id == sn:
+                for t in ci.targets:
+                    if t.cls == cname:
+                        for a in summ.get(t.fid, ()):
+                            try:
+                                stores.setdefault(a, set()).add(cfg.cfg_node(ci.node))
+                            except Exception:
+                                pass
         method_names = set(m.qualname.split(".")[-1] for m in cls.methods.values())
         class_level = set()
         for st in cls.node.body if hasattr(cls, "node") else []:
